@@ -302,6 +302,7 @@ func (e *env) evalSymEnc(c Case) []finding {
 	pES, _ := symFaults("EncryptSymmetric", a, k, len(n), len(p), 0, false)
 	// innermost first (only consulted when an outer site has something to report)
 	oES := kitEncrypt("EncryptSymmetric", p, a.Name, k.JWK, n, ad)
+	e.tally(pES, 0, a, c)
 	cES := judgeEncrypt("EncryptSymmetric", a, k, p, n, ad, oES, pES, func(ct, tag []byte) res {
 		return kitDecrypt("DecryptSymmetric", clip(ct), a.Name, k.JWK, n, clip(tag), ad)
 	})
@@ -309,6 +310,7 @@ func (e *env) evalSymEnc(c Case) []finding {
 	var cE []cond
 	if !skip {
 		oE := kitEncrypt("Encrypt", p, a.Name, k.JWK, n, ad)
+		e.tally(pE, 0, a, c)
 		cE = judgeEncrypt("Encrypt", a, k, p, n, ad, oE, pE, func(ct, tag []byte) res {
 			return kitDecrypt("Decrypt", clip(ct), a.Name, k.JWK, n, clip(tag), ad)
 		})
@@ -390,11 +392,17 @@ func (e *env) evalSymDecWith(c Case, a *algInfo, k *cryptokeys.Key, ct, tag, wan
 	pDS, _ := symFaults("DecryptSymmetric", a, k, len(n), len(ct), len(tag), true)
 	oDS := kitDecrypt("DecryptSymmetric", clip(ct), a.Name, k.JWK, n, clip(tag), ad)
 	cDS := judgeDecrypt(a, oDS, pDS, want)
+	if want != nil || pDS != 0 {
+		e.tally(pDS, 1, a, c)
+	}
 	pD, skip := symFaults("Decrypt", a, k, len(n), len(ct), len(tag), true)
 	var cD []cond
 	if !skip {
 		oD := kitDecrypt("Decrypt", clip(ct), a.Name, k.JWK, n, clip(tag), ad)
 		cD = judgeDecrypt(a, oD, pD, want)
+		if want != nil || pD != 0 {
+			e.tally(pD, 1, a, c)
+		}
 	}
 	if len(cDS)+len(cD) == 0 {
 		return nil
@@ -488,6 +496,7 @@ func (e *env) evalSymMut(c Case) []finding {
 		}
 		return cs
 	}
+	e.st[stMutation] += 2
 	cDS := name(judgeMutated(kitDecrypt("DecryptSymmetric", clip(ct), a.Name, k.JWK, clip(n), clip(tag), clip(ad)), want))
 	cD := name(judgeMutated(kitDecrypt("Decrypt", clip(ct), a.Name, k.JWK, clip(n), clip(tag), clip(ad)), want))
 	if len(cDS)+len(cD) == 0 {
@@ -501,4 +510,22 @@ func (e *env) evalSymMut(c Case) []finding {
 	var s sink
 	report(&s, a, fmt.Sprintf("alg=%q plaintext=%d bytes aad=%s mutation %s", a.Name, c.PT, hx(aads[c.AAD]), m), chain)
 	return s.out
+}
+
+// tally counts which oracle a call went through (dir 0 = encrypt: round trip
+// and reference-opens-kit; dir 1 = decrypt: kit-opens-reference).
+func (e *env) tally(present cryptoref.Fault, dir int, a *algInfo, c Case) {
+	if present != 0 {
+		e.st[stRejected]++
+		return
+	}
+	if dir == 0 {
+		e.st[stRoundTrip]++
+		e.st[stRefOpensKit]++
+	} else {
+		e.st[stKitOpensRef]++
+	}
+	if a.Known && a.Ref.Symmetric() && (a.Ref.NonceLen == 0 && c.Nonce != 0 || !a.Ref.AAD && c.AAD != 0 || dir == 1 && a.Ref.TagLen == 0 && c.Tag != 0) {
+		e.st[stIgnoredArg]++
+	}
 }
